@@ -1,8 +1,8 @@
 CONSTANTS
-  MaxReq = 3
-  Kinds <- AllKinds
+  MaxReq = 4
+  Kinds <- EnvCore
   GapKinds <- Gaps01
-  UniformGaps = FALSE
+  UniformGaps = TRUE
   PipeCap = 2
   BigChunks = 3
   BreakOutAfterPanic = TRUE
